@@ -52,6 +52,7 @@ seq_at = z3.Function("seq_at", INT, INT, INT)  # (sequence id, position) -> key
 seen = z3.Function("seen", INT, INT, INT, BOOL)  # (sequence id, key, i): key occurs among the first i items
 count = z3.Function("count", INT, INT, INT, INT)  # (sequence id, key, i): number of occurrences among the first i
 NoDup = z3.Function("NoDup", INT, BOOL)  # the sequence has pairwise distinct items
+slen = z3.Function("slen", INT, INT)  # length of a sequence (by id)
 X = z3.Int("x!key")  # the arbitrary key (label / tag)
 T = z3.Int("t!tid")  # the arbitrary tid
 
@@ -260,6 +261,8 @@ class Base(Contract):
         if name == "__contains__" and isinstance(args[0], MapH):
             h, x = args
             return sel(cx.fields(h.ref)["tdom" if h.w == "tensor" else h.w + "d"], x)
+        if name == "__contains__" and isinstance(args[0], FSet):
+            return sel(cx.fields(args[0].ref)[args[0].field], args[1])
         if name == "__getitem__" and isinstance(args[0], MapH) and args[0].w in ("tag", "ind"):
             h, x = args
             if not cx.decide(sel(cx.fields(h.ref)[h.w + "d"], x), line):
@@ -280,6 +283,24 @@ class Base(Contract):
             f[w + "c"] = z3.Store(f[w + "c"], x, Z(v.n))
             cx.ghost[("gen", h.ref.oid, w)] = cx.ghost.get(("gen", h.ref.oid, w), 0) + 1
             return None
+        if name == "__setitem__" and isinstance(args[0], MapH) and args[0].w == "tensor":
+            h, t, v = args
+            if not isinstance(v, TensorV):
+                raise Unsupported("tensor_map entry set to a non-tensor")
+            f = cx.fields(h.ref)
+            f["tdom"] = z3.Store(f["tdom"], t, TRUE)
+            f["tagsof"] = z3.Store(f["tagsof"], t, v.tags.sid)  # ghost: the sequences of the tensor now stored under t
+            f["indsof"] = z3.Store(f["indsof"], t, v.inds.sid)
+            cx.ghost["stored_tid"] = t
+            return None
+        if name == ".pop" and isinstance(args[0], MapH) and args[0].w == "tensor" and len(args) == 2:
+            h, t = args
+            f = cx.fields(h.ref)
+            if not cx.decide(sel(f["tdom"], t), line):
+                raise PyRaise("KeyError", line)
+            st, si = sel(f["tagsof"], t), sel(f["indsof"], t)
+            f["tdom"] = z3.Store(f["tdom"], t, FALSE)
+            return TensorV(KSeq(st, slen(st)), KSeq(si, slen(si)), "popped")
         if name == "__delitem__" and isinstance(args[0], MapH) and args[0].w in ("tag", "ind"):
             h, x = args
             f = cx.fields(h.ref)
@@ -594,3 +615,233 @@ class UnlinkInds(IndPrim):
         exp = dict(inner=sorted(fresh._inner_inds), outer=sorted(fresh._outer_inds))
         return dict(call="TensorNetwork([Tensor(inds=('a','a')), Tensor(inds=('a',))])._unlink_inds(('a',), tid_of_second)",
                     observed=got, fresh_scan=exp, reproduced=got != exp)
+
+
+# ================================================================================================
+# _reset_inner_outer / _next_tid
+# ================================================================================================
+
+
+@register
+class ResetInnerOuter(IndPrim):
+    """_reset_inner_outer(inds): every label of the sequence is re-classified from the size of its entry (the entry
+    state need NOT satisfy I4/I5 -- that is what the function is for); ind_map itself is only read"""
+
+    target = f"{TNC}._reset_inner_outer"
+    floor = 8
+    raises = {}
+
+    def cases(self):
+        return [NOREPEAT]
+
+    def pre(self, cx, a, case):
+        f = cx.fields(a.self)
+        s = self.seq(a)
+        d = dict(inv_map(f, "ind", X))
+        d["labels-present"] = Implies(And(0 <= J, J < s.length), sel(f["indd"], seq_at(s.sid, J)))
+        return d
+
+    def modifies(self, a, case):
+        return [(a.self, ["inner", "outer"])]
+
+    def loop_facts(self, v):
+        # + the instance at the current position of the (universally quantified) precondition `labels present`
+        s = self.seq(v.old)
+        p = v.cx.old_heap[v.self.oid]
+        return super().loop_facts(v) + [Implies(And(0 <= v._it0, v._it0 < s.length), sel(p["indd"], seq_at(s.sid, v._it0)))]
+
+    def effect(self, f, p, a, i, case):
+        s = seen(self.seq(a).sid, X, i)
+        c = sel(p["indc"], X)
+        return {"effect-inner": sel(f["inner"], X) == If(s, c >= 2, sel(p["inner"], X)),
+                "effect-outer": sel(f["outer"], X) == If(s, c == 1, sel(p["outer"], X)),
+                "reset-labels-satisfy-I4": Implies(s, And(Not(And(sel(f["inner"], X), sel(f["outer"], X))),
+                                                          Or(sel(f["inner"], X), sel(f["outer"], X)) == sel(f["indd"], X))),
+                "frame-other-fields": frame(f, p, [k for k in MAPF if k not in ("inner", "outer")])}
+
+
+BOUND = z3.Function("tid_bound", z3.ArraySort(INT, BOOL), INT)  # some strict upper bound of a finite set of ints
+
+
+@register
+class NextTid(Base):
+    """_next_tid(): returns a tid that is not a key of tensor_map, >= the old counter; only the counter changes.
+    Termination: tensor_map is finite, so its int keys have a strict upper bound B (ghost); B - counter decreases."""
+
+    target = f"{TNC}._next_tid"
+    floor = 6
+
+    def inputs(self, cx, case):
+        return {"self": new_tn(cx), "_cx": cx}
+
+    def modifies(self, a, case):
+        return [(a.self, ["_tid_counter"])]
+
+    def fresh_result(self, cx, a, case):
+        return cx.Int("next_tid")
+
+    def ensures(self, a, r, cx, case):
+        f, p = cx.fields(a.self), cx.pre(a.self)
+        if not is_int(r):
+            return {"returns-int": False}
+        return {"fresh": Not(sel(p["tdom"], r)), "counter-is-result": f["_tid_counter"] == r,
+                "monotone": r >= p["_tid_counter"],
+                "first-free-from-counter": Implies(And(p["_tid_counter"] <= T, T < r), sel(p["tdom"], T)),
+                "frame-other-fields": frame(f, p, [k for k in MAPF if k != "_tid_counter"])}
+
+    def inv(self, v):
+        cx = v.cx
+        f, p = cx.fields(v.self), cx.old_heap[v.self.oid]
+        c = f["_tid_counter"]
+        return {"monotone": c >= p["_tid_counter"],
+                "all-below-taken": Implies(And(p["_tid_counter"] <= T, T < c), sel(p["tdom"], T)),
+                "frame-other-fields": frame(f, p, [k for k in MAPF if k != "_tid_counter"])}
+
+    def loop_facts(self, v):
+        f = v.cx.fields(v.self)
+        c = f["_tid_counter"]
+        # finiteness of tensor_map (trusted): every key is below the bound -- instance at the current counter
+        return [Implies(sel(f["tdom"], c), c < BOUND(f["tdom"]))]
+
+    @property
+    def loops(self):
+        return {0: Loop(None, self.inv, facts=self.loop_facts,
+                        decreases=lambda v: BOUND(v.cx.fields(v.self)["tdom"]) - v.cx.fields(v.self)["_tid_counter"])}
+
+
+# ================================================================================================
+# add_tensor / pop_tensor     (INV incl. I2/I3 at the arbitrary pair (X, T))
+# ================================================================================================
+
+
+def subset(a, b):
+    return z3.IsSubset(a, b)
+
+
+def inv_links(f, x, t):
+    """(I2)/(I3) at key x and tid t, and the domain restriction (no tensor carries a label twice) at t"""
+    st, si = sel(f["tagsof"], t), sel(f["indsof"], t)
+    return {"INV-I3-tag-entry-within-tensor_map": subset(sel(f["tagm"], x), f["tdom"]),
+            "INV-I2-ind-entry-within-tensor_map": subset(sel(f["indm"], x), f["tdom"]),
+            "INV-I3-tag-linked-iff-carried": Implies(sel(f["tdom"], t), sel(f["tagm"], x, t) == seen(st, x, slen(st))),
+            "INV-I2-ind-linked-iff-carried": Implies(sel(f["tdom"], t), sel(f["indm"], x, t) == seen(si, x, slen(si))),
+            "DOM-no-label-twice-on-one-tensor": Implies(sel(f["tdom"], t), NoDup(si))}
+
+
+def inv_all(f, x, t):
+    d = dict(inv_map(f, "tag", x))
+    d.update(inv_map(f, "ind", x))
+    d.update(inv_io(f, x))
+    d.update(inv_links(f, x, t))
+    return d
+
+
+def mk_tensor(cx, name="tensor"):
+    st, si = z3.Int(f"s!{name}.tags"), z3.Int(f"s!{name}.inds")
+    return TensorV(KSeq(st, slen(st)), KSeq(si, slen(si)), name)
+
+
+@register
+class AddTensor(Base):
+    """add_tensor(tensor, tid, virtual): T' = T + {tid'}, tid' not in T (the requested tid when it is free, else a fresh
+    one), the maps get exactly the tensor's tags / labels for tid', every other entry unchanged, INV preserved"""
+
+    target = f"{TNC}.add_tensor"
+    floor = 40
+
+    def cases(self):
+        return [NS(name=f"tid={t},virtual={v}", tk=t, virtual=v) for t in ("None", "int") for v in (True, False)]
+
+    def inputs(self, cx, case):
+        return {"self": new_tn(cx), "tensor": mk_tensor(cx), "tid": None if case.tk == "None" else cx.Int("tid"),
+                "virtual": case.virtual, "_cx": cx}
+
+    def pre(self, cx, a, case):
+        f = cx.fields(a.self)
+        d = inv_all(f, X, T)
+        # instance of (I2) at the label in the arbitrary position J of the tensor's label tuple
+        d["INV-I2-at-label-J"] = subset(sel(f["indm"], seq_at(a.tensor.inds.sid, J)), f["tdom"])
+        d["DOM-tensor-has-no-repeated-label"] = NoDup(a.tensor.inds.sid)
+        return d
+
+    def facts(self, cx, a, case):
+        f = cx.fields(a.self)
+        return inv_facts(f, X) + [slen(a.tensor.tags.sid) >= 0, slen(a.tensor.inds.sid) >= 0]
+
+    def ensures(self, a, r, cx, case):
+        f, p = cx.fields(a.self), cx.pre(a.self)
+        for c in inv_facts(f, X):
+            cx.assume(c)
+        t2 = cx.ghost.get("stored_tid")
+        if t2 is None:
+            return {"tensor-stored": False}
+        ts, ls = a.tensor.tags, a.tensor.inds
+        st, sl = seen(ts.sid, X, ts.length), seen(ls.sid, X, ls.length)
+        d = {"returns-None": r is None,
+             "new-tid-was-free": Not(sel(p["tdom"], t2)),
+             "tensor_map-gains-exactly-tid": f["tdom"] == add1(p["tdom"], t2),
+             "tag-entry": sel(f["tagm"], X) == If(st, add1(sel(p["tagm"], X), t2), sel(p["tagm"], X)),
+             "tag-card": sel(f["tagc"], X) == sel(p["tagc"], X) + If(st, 1, 0),
+             "ind-entry": sel(f["indm"], X) == If(sl, add1(sel(p["indm"], X), t2), sel(p["indm"], X)),
+             "ind-card": sel(f["indc"], X) == sel(p["indc"], X) + If(sl, 1, 0),
+             "ghost-sequences": And(f["tagsof"] == z3.Store(p["tagsof"], t2, ts.sid),
+                                    f["indsof"] == z3.Store(p["indsof"], t2, ls.sid)),
+             "counter-monotone": f["_tid_counter"] >= p["_tid_counter"]}
+        if a.tid is not None:
+            d["requested-tid-used-iff-free"] = If(sel(p["tdom"], a.tid), t2 != a.tid, t2 == a.tid)
+            d["counter-untouched-when-tid-free"] = Implies(Not(sel(p["tdom"], a.tid)), f["_tid_counter"] == p["_tid_counter"])
+        d.update(inv_all(f, X, T))
+        return d
+
+
+@register
+class PopTensor(Base):
+    """pop_tensor(tid) [int tid]: the inverse of add_tensor: T' = T - {tid}, tid leaves every entry, emptied entries
+    disappear, labels re-classified, INV preserved; KeyError (nothing changed) iff tid is not in tensor_map"""
+
+    target = f"{TNC}.pop_tensor"
+    floor = 30
+
+    def inputs(self, cx, case):
+        return {"self": new_tn(cx), "tid_or_tags": cx.Int("tid"), "which": "all", "_cx": cx}
+
+    def pre(self, cx, a, case):
+        f = cx.fields(a.self)
+        d = inv_all(f, X, T)
+        for k, c in inv_links(f, X, a.tid_or_tags).items():
+            d[k + "-at-tid"] = c
+        return d
+
+    def facts(self, cx, a, case):
+        f = cx.fields(a.self)
+        st, si = sel(f["tagsof"], a.tid_or_tags), sel(f["indsof"], a.tid_or_tags)
+        return inv_facts(f, X) + [slen(st) >= 0, slen(si) >= 0]
+
+    def ensures(self, a, r, cx, case):
+        f, p = cx.fields(a.self), cx.pre(a.self)
+        for c in inv_facts(f, X):
+            cx.assume(c)
+        tid = a.tid_or_tags
+        if not isinstance(r, TensorV):
+            return {"returns-tensor": False}
+        d = {"returns-the-stored-tensor": And(r.tags.sid == sel(p["tagsof"], tid), r.inds.sid == sel(p["indsof"], tid)),
+             "tid-was-present": sel(p["tdom"], tid),
+             "tensor_map-loses-exactly-tid": f["tdom"] == del1(p["tdom"], tid),
+             "tag-entry": sel(f["tagm"], X) == del1(sel(p["tagm"], X), tid),
+             "tag-card": sel(f["tagc"], X) == sel(p["tagc"], X) - If(sel(p["tagm"], X, tid), 1, 0),
+             "ind-entry": sel(f["indm"], X) == del1(sel(p["indm"], X), tid),
+             "ind-card": sel(f["indc"], X) == sel(p["indc"], X) - If(sel(p["indm"], X, tid), 1, 0),
+             "frame-counter-and-ghost-sequences": frame(f, p, ["_tid_counter", "tagsof", "indsof"])}
+        d.update(inv_all(f, X, T))
+        return d
+
+    def ensures_raise(self, a, exc, cx, case):
+        f, p = cx.fields(a.self), cx.pre(a.self)
+        if exc != "KeyError":
+            return {f"no-raise-{exc}": False}
+        return {"KeyError-only-if-tid-absent": Not(sel(p["tdom"], a.tid_or_tags)), "nothing-changed": frame(f, p, MAPF)}
+
+
+Base.methods = {"_link_tags": LinkTags.target, "_unlink_tags": UnlinkTags.target, "_link_inds": LinkInds.target,
+                "_unlink_inds": UnlinkInds.target, "_next_tid": NextTid.target,
+                "_reset_inner_outer": ResetInnerOuter.target}
